@@ -136,6 +136,9 @@ type Exec struct {
 	reach       map[int]map[int]bool // reach[a][b]: block a reaches block b in the top-frame CFG (reflexive)
 	specAppBlk  map[string]int
 	trusted     map[string]bool // trusted (assumed) contracts used
+	axiomRec    map[string]bool
+	axiomIdx    map[string]int
+	axioms      map[string]string // definitional axioms of opaque spec functions, by SMT function name
 }
 
 func newExec(p *Program, fnKey string) *Exec {
